@@ -120,7 +120,7 @@ def _x(c):
         kwc = dict(kw)
         kwc.update(_mode_kw(c))
         if c["emb"]:
-            kwc.update(dim=2, tau=1)
+            kwc.update(dim=2, tau=int(c["ctau"]))
         if _via_setter(c["case"]):
             mode, val, rest = _split_mode(kwc)
             crp = CrossRecurrencePlot(x, y, silence_level=3, threshold=1.0e6, **rest)
@@ -141,7 +141,7 @@ def _x(c):
         kwi = dict(kw)
         kwi.update(_mode_kw(c, triple=True))
         if c["emb"]:
-            kwi.update(dim=2, tau=(1, 1))
+            kwi.update(dim=2, tau=(int(c["taux"]), int(c["tauy"])))
         if _via_setter(c["case"]):
             mode, val, rest = _split_mode(kwi)
             isrn = InterSystemRecurrenceNetwork(x, y, silence_level=3, threshold=(1.0e6, 1.0e6, 1.0e6), **rest)
